@@ -208,6 +208,19 @@ func (fx *Fx) exec(st *State, s ast.Stmt) {
 		if elem != nil {
 			v = fx.convertTo(st, v, elem)
 		}
+		if len(fx.c.locks) > 0 {
+			// a goroutine that blocks in a send while it holds a mutex keeps the mutex for ever if nobody receives: the
+			// send must be unable to block — a buffered channel this activation has not sent to yet (that no other
+			// goroutine sends on it is not checked)
+			var held []string
+			for _, mu := range fx.c.locks {
+				held = append(held, fmt.Sprintf("(not (= (select %s %s) 0))", fx.lkHeap(st), mu))
+			}
+			cnc := fmt.Sprintf("(select (select %s %d) %s)", st.heap("CNC", cntSort), evKinds["Send"], ch.T)
+			cnc0 := fmt.Sprintf("(select (select %s %d) %s)", fx.entry.heap("CNC", cntSort), evKinds["Send"], ch.T)
+			phi := fmt.Sprintf("(=> (or %s) (and (>= (select %s %s) 1) (= %s %s)))", strings.Join(held, " "), st.heap("CP", "(Array Int Int)"), ch.T, cnc, cnc0)
+			fx.c.oblige(st, "blocking", "send-under-lock("+fx.exprText(s.Chan)+")", phi, "a send made while holding a mutex cannot block: "+fx.exprText(s.Chan)+" is buffered and not yet sent to by this activation", fx.w.pos(s.Pos()))
+		}
 		if fx.spec != nil && fx.spec.Flags["nonblocking"] != "" {
 			// the function promises to return in bounded time: a send outside a select with a default branch may only go
 			// to a buffered channel this activation created and has not sent to yet (nobody else can have filled it)
@@ -749,6 +762,7 @@ func (fx *Fx) spawnTarget(st *State, call *ast.CallExpr) (string, string, string
 				a0 = fx.c.box(Val{T: t, S: fx.c.sortOf(fx.recv.Type()), GT: fx.recv.Type()})
 			}
 		}
+		fx.establishClosureInv(st, f)
 		return fmt.Sprint(fx.c.codeId(fx.w.ByLit[f].Key)), a0, a1
 	default:
 		if fn := fx.calleeFunc(call); fn != nil {
@@ -764,6 +778,18 @@ func (fx *Fx) spawnTarget(st *State, call *ast.CallExpr) (string, string, string
 		}
 		v := fx.eval(st, call.Fun)
 		return "(fn_code " + v.T + ")", a0, a1
+	}
+}
+
+// establishClosureInv: the closure invariant of a literal holds where the closure is created (or spawned).
+func (fx *Fx) establishClosureInv(st *State, lit *ast.FuncLit) {
+	fi := fx.w.ByLit[lit]
+	if fi == nil || fi.Spec == nil || fx.c.dry {
+		return
+	}
+	for k, ci := range fi.Spec.ClosureInv {
+		env := fx.specEnv(st, st, lit.Body.Lbrace)
+		fx.c.oblige(st, "closure-inv", clauseAnchor("established("+fi.Name+")", ci, k), fx.specBool(env, ci.Expr), ci.Text, fx.w.pos(lit.Pos()))
 	}
 }
 
